@@ -130,8 +130,7 @@ def model(derive, kinds, shared_key, enum_rename):
                 for need in sh.get("needs", []):
                     if need not in fields:
                         raise Reject("shared default names a field the variant lacks")
-                if derive != "Display" and len(fields) == 0:
-                    raise Reject("implicit unit variant naming is Display-only")
+                # (a field-less variant is not named implicitly here - it prints the default format - so this is not the Display-only case)
                 out.append("format!(%s)" % lit_rs(sh["lit"]))
     return out
 
